@@ -1,10 +1,7 @@
 import Driver.Proto
-import Driver.OpsCore
-import Driver.OpsC05
+import Driver.AllOps
 /-! Model driver: one request per line on stdin, one answer per line on stdout. -/
 open Pf.Proto
-
-def allOps : List (String × Op) := Pf.Ops.opsCore ++ Pf.Ops.opsC05
 
 def answer (line : String) : String :=
   match parseLine line with
